@@ -44,6 +44,21 @@ void run_one(const Case &c, const std::vector<long long> &units, bool checkDrift
     ++g_calls;
     size_t n = gr_count_unicode_characters(gr_encform(usz), p, c.endGiven ? g.end() : 0, &err);
     long erroff = err ? long(((const uint8_t *)err - p) / usz) + 1 : 0;     // 1-based unit index, 0 = none
+    // the same call on a copy that starts right behind an inaccessible page: nothing in front of the text is read,
+    // and the answer does not depend on where the text lies
+    if (units.size() <= 8) {
+        static std::map<size_t, Guarded *> &front = *new std::map<size_t, Guarded *>;      // lives until exit
+        Guarded *&fg = front[units.size() * usz];
+        if (!fg) fg = new Guarded(units.size() * usz, true);
+        memcpy(fg->data(), p, units.size() * usz);
+        const void *err2 = (const void *)0x1;
+        size_t n2 = gr_count_unicode_characters(gr_encform(usz), fg->data(), c.endGiven ? fg->end() : 0, &err2);
+        long erroff2 = err2 ? long(((const uint8_t *)err2 - fg->data()) / usz) + 1 : 0;
+        if (n2 != n || erroff2 != erroff) {
+            vj::W w; w.i("enc", c.enc).arr("buf", units).b("endGiven", c.endGiven).i("count", (long long)n).i("err", erroff).i("count_front", (long long)n2).i("err_front", erroff2);
+            report_fail("C11", "the result depends on what lies in front of the text (count/error differ for the same units at another address)", w.done());
+        }
+    }
     bool inside = err ? ((const uint8_t *)err >= p && (const uint8_t *)err < g.end()) : true;
     std::string why;
     if (c.wf && !c.trunc && !(long(n) == c.nwf && err == 0))
